@@ -20,6 +20,125 @@ B = b"1a410efbd13591db07496601ebc7a059dd55cfe9"
 ZERO = b"0" * 40
 
 
+def sym_chunk(args):
+    """part (e) of the sweep for the sequences number lo..hi (own process, own temporary directory)"""
+    tier, lo, hi = args
+    repo = os.environ.get("VERIF_REPO", "/repo")
+    from pyvc import native
+    native.setup(repo)
+    from dulwich.refs import DiskRefsContainer
+    cases = 0
+    failures = []
+
+    def fail(what, detail):
+        if len(failures) < 4:
+            failures.append({"what": what, "detail": detail})
+    counter = [0]
+    with tempfile.TemporaryDirectory() as d:
+        # (e) symbolic refs: HEAD -> s -> m chains, dangling targets, writes and conditional writes THROUGH the chain, deletes of
+        #     the symref itself, import_refs with prune, interleaved with pack_refs and re-opening; model = (direct values, symrefs)
+        H, M, S, X, RM = b"HEAD", b"refs/heads/m", b"refs/heads/s", b"refs/heads/x", b"refs/remotes/o/m"
+        sops = [("set", H, A), ("set", H, B), ("set", M, A), ("set", M, B), ("set", S, B), ("cas", H, A, B), ("cas", S, B, A), ("add", H, A), ("add", S, A),
+                ("sym", H, S), ("sym", H, M), ("sym", S, M), ("sym", S, X), ("del", S), ("del", M), ("cad", M, A),
+                ("import", {b"m": A}), ("import", {b"m": B}), ("import", {}), ("pack",), ("reopen",)]
+
+        def run_sym(seq):
+            vals, syms = {}, {H: M}                 # a fresh container as Repo.init leaves it: HEAD -> refs/heads/m (unborn)
+
+            def final(nm):
+                seen = 0
+                while nm in syms and seen < 6:
+                    nm = syms[nm]
+                    seen += 1
+                return nm
+            p_ = os.path.join(d, f"s{counter[0]}").encode()
+            counter[0] += 1
+            os.makedirs(os.path.join(p_, b"refs", b"heads"))
+            c = DiskRefsContainer(p_)
+            c.set_symbolic_ref(H, M)
+            for oi in seq:
+                op = sops[oi]
+                try:
+                    if op[0] == "set":
+                        c[op[1]] = op[2]
+                        vals[final(op[1])] = op[2]
+                    elif op[0] == "cas":
+                        cond = vals.get(final(op[1]), ZERO) == op[2]
+                        res = c.set_if_equals(op[1], op[2], op[3])
+                        if res != cond:
+                            return f"set_if_equals returned {res}, model says {cond} at {op}"
+                        if cond:
+                            vals[final(op[1])] = op[3]
+                    elif op[0] == "add":
+                        cond = final(op[1]) not in vals
+                        res = c.add_if_new(op[1], op[2])
+                        if res != cond:
+                            return f"add_if_new returned {res}, model says {cond} at {op}"
+                        if cond:
+                            vals[final(op[1])] = op[2]
+                    elif op[0] == "sym":
+                        c.set_symbolic_ref(op[1], op[2])
+                        vals.pop(op[1], None)
+                        syms[op[1]] = op[2]
+                    elif op[0] == "del":
+                        c.remove_if_equals(op[1], None)          # does not follow: removes the name itself
+                        vals.pop(op[1], None)
+                        syms.pop(op[1], None)
+                    elif op[0] == "cad":
+                        cond = op[1] not in syms and vals.get(op[1], ZERO) == op[2]
+                        if op[1] in syms:
+                            continue                             # conditional delete of a symref: convention not fixed by the property
+                        res = c.remove_if_equals(op[1], op[2])
+                        if res != cond:
+                            return f"remove_if_equals returned {res}, model says {cond} at {op}"
+                        if cond:
+                            vals.pop(op[1], None)
+                    elif op[0] == "import":
+                        c.import_refs(b"refs/remotes/o", op[1], prune=True)
+                        for k_ in [k for k in vals if k.startswith(b"refs/remotes/o/")]:
+                            del vals[k_]
+                        for k_, v_ in op[1].items():
+                            vals[b"refs/remotes/o/" + k_] = v_
+                    elif op[0] == "pack":
+                        c.pack_refs(all=True)
+                    elif op[0] == "reopen":
+                        c = DiskRefsContainer(p_)
+                except Exception as e:  # noqa: BLE001
+                    return f"unexpected {type(e).__name__}: {e!r} at {op}"
+                want_resolved = {}
+                for nm in list(vals) + list(syms):
+                    if final(nm) in vals:
+                        want_resolved[nm] = vals[final(nm)]
+                try:
+                    got = dict(c.as_dict())
+                    gsyms = dict(c.get_symrefs())
+                    raw = {nm: c.read_ref(nm) for nm in (H, M, S, X, RM)}
+                except Exception as e:  # noqa: BLE001
+                    return f"reading back raised {type(e).__name__}: {e!r} after {op}"
+                if got != want_resolved:
+                    return f"after {op}: as_dict() {sorted((k.decode(), v[:4].decode()) for k, v in got.items())} model {sorted((k.decode(), v[:4].decode()) for k, v in want_resolved.items())}"
+                if gsyms != syms:
+                    return f"after {op}: get_symrefs() {sorted(gsyms.items())} model {sorted(syms.items())}"
+                for nm in (H, M, S, X, RM):
+                    want_raw = (b"ref: " + syms[nm]) if nm in syms else vals.get(nm)
+                    if raw[nm] != want_raw:
+                        return f"after {op}: read_ref({nm.decode()}) = {raw[nm]!r}, model {want_raw!r}"
+            return None
+        seqs3 = list(itertools.product(range(len(sops)), repeat=3))
+        seqs4 = [q for i_, q in enumerate(itertools.product(range(len(sops)), repeat=4)) if i_ % (23 if tier == "quick" else 3) == 0]
+        allseq = seqs3 + seqs4
+        for seq in allseq[len(allseq) * lo // 64:len(allseq) * hi // 64]:
+            cases += 1
+            r = run_sym(seq)
+            if r:
+                fail("files backend with symbolic refs deviates from the map model", {"ops": [[x.decode() if isinstance(x, bytes) else ({k.decode(): v.decode() for k, v in x.items()} if isinstance(x, dict) else x) for x in sops[o]] for o in seq], "why": r})
+            import shutil
+            if cases % 50 == 0:
+                for nm_ in os.listdir(d):
+                    shutil.rmtree(os.path.join(d, nm_), ignore_errors=True)
+    return cases, failures
+
+
 def main():
     tier = sys.argv[sys.argv.index("--tier") + 1] if "--tier" in sys.argv else "quick"
     repo = os.environ.get("VERIF_REPO", "/repo")
@@ -113,6 +232,8 @@ def main():
                 elif op[0] == "reopen":
                     if kind == "disk":
                         c = DiskRefsContainer(c.path)
+                    elif kind == "reftable":
+                        c = type(c)(c.path)
             except (OSError, KeyError) as e:
                 # directory/file conflicts must be refused by the files backend and only there
                 # (for a conditional delete of a colliding name the refusal may also be an OSError: state unchanged)
@@ -132,13 +253,25 @@ def main():
             os.makedirs(os.path.join(p, b"refs", b"heads"))
             os.makedirs(os.path.join(p, b"refs", b"tags"))
             return DiskRefsContainer(p)
+        def reftable():
+            from dulwich.reftable import ReftableRefsContainer
+            counter[0] += 1
+            p = os.path.join(d, f"t{counter[0]}")
+            os.makedirs(p)
+            return ReftableRefsContainer(p)
         for i, seq in enumerate(seqs):
             if i % step:
                 continue
             cases += 1
-            for kind, fac in (("dict", lambda: DictRefsContainer({})), ("disk", disk)):
-                # the in-memory backend does not model directory/file conflicts: skip sequences that create one
-                if kind == "dict":
+            if cases % 200 == 0:
+                import shutil
+                for nm_ in os.listdir(d):
+                    shutil.rmtree(os.path.join(d, nm_), ignore_errors=True)
+            for kind, fac in (("dict", lambda: DictRefsContainer({})), ("disk", disk), ("reftable", reftable)):
+                # the in-memory and reftable backends do not model directory/file conflicts: skip sequences that create one
+                if kind in ("dict", "reftable"):
+                    if kind == "reftable" and (i // step) % 4:
+                        continue                     # (one table file per update: a quarter of the sample)
                     touched = [ops[o][1] for o in seq if len(ops[o]) > 1]
                     if b"refs/heads/a" in touched and b"refs/heads/a/b" in touched:
                         continue
@@ -179,10 +312,47 @@ def main():
                     if got is not want:
                         fail("_check_no_packed_conflict != definition", {"packed": [x.decode() for x in packed], "name": nm.decode(),
                                                                          "raised": got.__name__ if got else None, "expected": want.__name__ if want else None})
-    print(json.dumps({"name": "c16_backends", "function": "dulwich/refs.py check_ref_format + Dict/DiskRefsContainer", "cases": cases, "exhaustive": True,
+    # (f) directed: a peeled value cached for a packed tag does not survive the ref being overwritten / deleted and re-created
+    with tempfile.TemporaryDirectory() as d2:
+        C_ = b"c" * 40
+        for how in ("set", "cas", "del+add"):
+            for repack in (False, True):
+                for reopen in (False, True):
+                    cases += 1
+                    p_ = os.path.join(d2, f"p{cases}").encode()
+                    os.makedirs(os.path.join(p_, b"refs", b"tags"))
+                    with open(os.path.join(p_, b"packed-refs"), "wb") as pf:
+                        pf.write(b"# pack-refs with: peeled fully-peeled sorted \n" + A + b" refs/tags/t\n^" + B + b"\n")
+                    c = DiskRefsContainer(p_)
+                    if c.get_peeled(b"refs/tags/t") != B:
+                        fail("peeled value of a packed tag is not read", {"how": how})
+                    if how == "set":
+                        c[b"refs/tags/t"] = C_
+                    elif how == "cas":
+                        c.set_if_equals(b"refs/tags/t", A, C_)
+                    else:
+                        del c[b"refs/tags/t"]
+                        c.add_if_new(b"refs/tags/t", C_)
+                    if repack:
+                        c.pack_refs(all=True)
+                    if reopen:
+                        c = DiskRefsContainer(p_)
+                    got_p = c.get_peeled(b"refs/tags/t")
+                    text = open(os.path.join(p_, b"packed-refs"), "rb").read() if os.path.exists(os.path.join(p_, b"packed-refs")) else b""
+                    if c[b"refs/tags/t"] != C_ or got_p == B or (C_ + b" refs/tags/t\n^" + B) in text:
+                        fail("a stale peeled value survives the overwrite of a packed tag ref", {"how": how, "repack": repack, "reopen": reopen, "get_peeled": None if got_p is None else got_p.decode(), "packed_refs": text.decode("latin-1")})
+    # (e) symbolic refs (see sym_chunk), 16 processes
+    from concurrent.futures import ProcessPoolExecutor
+    with ProcessPoolExecutor(max_workers=min(16, os.cpu_count() or 1)) as ex:
+        for c_, f_ in ex.map(sym_chunk, [(tier, k_, k_ + 1) for k_ in range(64)]):
+            cases += c_
+            for x_ in f_:
+                if len(failures) < 10:
+                    failures.append(x_)
+    print(json.dumps({"name": "c16_backends", "function": "dulwich/refs.py check_ref_format + Dict/DiskRefsContainer, dulwich/reftable.py ReftableRefsContainer", "cases": cases, "exhaustive": True,
                       "bound": f"ref names: all strings <= {n} over a 13-symbol class alphabet; backends: every {step}th of all {len(ops)}^{K} operation sequences "
                       "over 4 names (one directory/file pair) incl. pack_refs and re-open; all 8^4 sequences of a reduced operation set on 'a' and 'a-2'; "
-                      "_check_no_packed_conflict on all packed sets <= 2 of 8 names" + ("; git check-ref-format on all strings <= 4 over 10 symbols" if tier == "thorough" else ""),
+                      "_check_no_packed_conflict on all packed sets <= 2 of 8 names; reftable backend on a quarter of the sampled sequences; 12 directed stale-peeled-value cases; symbolic refs: all sequences of 3 and a sample of 4 of 21 operations (writes / conditional writes through HEAD -> s -> m chains, dangling targets, symref deletes, import_refs with prune, pack_refs, re-open) against a (values, symrefs) model incl. get_symrefs() and raw reads" + ("; git check-ref-format on all strings <= 4 over 10 symbols" if tier == "thorough" else ""),
                       "failures": failures, "secs": round(time.time() - t0, 2)}))
 
 
